@@ -34,7 +34,7 @@ def seeds():
     for d in sorted(glob.glob(os.path.join(V, "seeded", "*", "meta.json"))):
         m = json.load(open(d))
         sid = os.path.basename(os.path.dirname(d))
-        cell = lambda x: "; ".join(x).replace("|", "\\|") if x else "—"
+        cell = lambda x: "; ".join([x] if isinstance(x, str) else x).replace("|", "\\|") if x else "—"
         summ = m.get("summary", "").replace("|", "\\|").replace("\n", " ")
         if len(summ) > 200:
             summ = summ[:197] + "..."
